@@ -514,6 +514,18 @@ fn main() {
             run(&prop, &tier)
         }
         Some("replay") => replay(args.get(1).map(|s| s.as_str()).unwrap_or("")),
+        Some("sizes") => {
+            // diagnostic: number of grammars each unit of a property holds in memory
+            let prop = args.get(1).cloned().unwrap_or_default();
+            let tier = tier_of(args.get(2).map(|s| s.as_str()).unwrap_or("quick"));
+            for u in props::units(&prop, tier).unwrap_or_default() {
+                match &u {
+                    Unit::E1(e) => println!("{:40} {:>10} grammars, {:>12} nodes", e.name, e.grammars.len(), e.grammars.iter().map(|g| g.size()).sum::<usize>()),
+                    Unit::Custom { name, .. } => println!("{:40} custom", name),
+                }
+            }
+            0
+        }
         Some("list") => {
             for p in props::ALL_PROPS {
                 println!("{p}");
